@@ -69,6 +69,13 @@ def check(ctx):
     st_c = [n for n in A.cfg.nodes if isinstance(n.ast, ast.Assign) and src(n.ast.targets[0]) == "value.Counter" and src(n.ast.value) == "self.counters[key]"]
     ctx.check(bool(lp) and bool(st_n) and bool(st_c), "T6-roots", ar, "assignRegistries rebinds Names and Counter of every registry",
               "both the name table and the counter must be switched to the house's own")
+    tests_ar = [t for t in A.cfg.nodes if t.kind == "test"]
+    rets_ar = [n for n in A.cfg.nodes if n.kind == "return"]
+    ctx.check(bool(lp) and A.always_then([A.cfg.entry], lp) and not tests_ar and not rets_ar, "T6-roots", ar,
+              "assignRegistries rebinds unconditionally (no test, no early return)",
+              "the class-level registries can be re-pointed behind the house's back (Registrar.Clear / ClearRegistries rebind "
+              "Names to fresh dicts, another house assigns its own): a cached `already assigned` fast path leaves instances "
+              "registering in an orphan or foreign namespace")
     hi = ctx.fn("housing", "House.__init__")
     H = FuncView(ctx, hi)
     ok = any(isinstance(n.ast, ast.Assign) and src(n.ast.targets[0]) == "self.names[key]" and call_name(n.ast.value) in ("odict", "dict")
